@@ -57,6 +57,15 @@ theorem gen_eq_model_dst (comps : List ZComp) (hne : comps ≠ []) (cache : Cach
            cdOf f (findCompCached comps cache w fold).2, ccOf comps (findCompCached comps cache w fold).2) :=
   ical_dst_eq comps hne cache hinv w f fold att h0 h1
 
+/-- `_tzicalvtz.tzname`: tzname is the selected component's TZNAME (`names`: the TZNAME field of the component objects,
+    which `ICal.ZComp` does not carry); the selection is `findCompIdx` -/
+theorem gen_eq_model_tzname (comps : List ZComp) (names : ZComp → Option (List Char)) (hne : comps ≠ []) (cache : Cache)
+    (hinv : CacheInv comps cache) (w f : Int) (fold att : Bool) (h0 : 0 ≤ f) (h1 : f < M) :
+    Gen.tzicalvtz_tzname comps names (cdOf f cache) (ccOf comps cache) (D w f fold att) =
+      .ok (names (comps.getD (findCompIdx comps w fold) default),
+           cdOf f (findCompCached comps cache w fold).2, ccOf comps (findCompCached comps cache w fold).2) :=
+  ical_tzname_eq comps names hne cache hinv w f fold att h0 h1
+
 /-- C17.cache_transparent's step about the TRANSLATED function: with the model's invariant the translated `_find_comp`
     answers like the uncached selection -/
 theorem cache_step_gen (comps : List ZComp) (hne : comps ≠ []) (cache : Cache) (hinv : CacheInv comps cache)
